@@ -305,20 +305,42 @@ fn gen_x(rng: &mut Rng) -> (Dec, u64) {
             }
             (Dec::new(rng.chance(1, 2), &s, rng.range(-2000, 2000)), 0)
         }
+        // integers of an exact bit length around the f64 subnormal window of exp2(-bits)
+        // (1022 < bits <= 1074: subnormal result; bits > 1074: underflow to 0, fallback guess)
+        6 => {
+            let bits = 1015 + rng.below(70);
+            let mut v = pow2(bits - 1);
+            match rng.below(4) {
+                0 => {}
+                1 => v = pow2(bits) - BigUint::from(1u8),
+                _ => {
+                    // random value in [2^(bits-1), 2^bits)
+                    let mut acc = BigUint::from(1u8);
+                    for _ in 0..((bits - 1) / 32) {
+                        acc = (acc << 32usize) + BigUint::from(rng.next_u64() as u32);
+                    }
+                    let rem = (bits - 1) % 32;
+                    acc = (acc << (rem as usize)) + BigUint::from(rng.next_u64() & ((1u64 << rem) - 1));
+                    v = acc;
+                }
+            }
+            (Dec::new(rng.chance(1, 2), &v.to_str_radix(10), rng.range(-400, 400)), 0)
+        }
         // small integers and simple fractions
-        6 | 7 => {
+        7 => {
             let hi = if rng.chance(1, 2) { 100 } else { 100_000 };
             let v = 2 + rng.below(hi);
             (Dec::new(rng.chance(1, 2), &v.to_string(), rng.range(-12, 12)), 0)
         }
         _ => {
-            let cfg = ValueCfg::swarm(rng, 1500, 2000);
-            loop {
-                let (d, _) = gen::gen_dec(rng, &cfg);
-                if !d.is_zero() {
-                    return (d, 0);
-                }
+            let mut cfg = ValueCfg::swarm(rng, 1500, 2000);
+            // zero is outside the property's domain; never let the swarm leave only that class enabled
+            cfg.digit_w[9] = 0;
+            if cfg.digit_w.iter().all(|&w| w == 0) {
+                cfg.digit_w[1] = 1;
             }
+            let (d, _) = gen::gen_dec(rng, &cfg);
+            (d, 0)
         }
     }
 }
@@ -531,9 +553,9 @@ impl Property for C12 {
             obs.execs += 1;
             obs.execs_fault_free += 1;
             if let RunOut::Value(vd) = exd.out {
-                let (ai, asc) = v.as_bigint_and_exponent();
-                let (bi, bsc) = vd.as_bigint_and_exponent();
-                if ai != bi || asc != bsc {
+                // the statement lists `1 / x` as another spelling of the reciprocal: equal in value
+                // (representation is not promised, so it is not demanded)
+                if !RefDec::from_bd(v).value_eq(&RefDec::from_bd(&vd)) {
                     fails.push(fail("A5-one-over-x-is-inverse", t, &FloatEnv::Native, p, mode, format!("{:?} gives {} but inverse() gives {}", t.via, clip(&v.to_string(), 50), clip(&vd.to_string(), 50))));
                 }
                 obs.reach("one_over_x_compared_with_inverse");
